@@ -82,8 +82,14 @@ func genEW(prop, tier string, r *rng, emit func(string)) {
 		default:
 			op = unOps[r.intn(len(unOps))]
 		}
-		if (op == "min" || op == "max") && len(sh) == 0 {
-			sh = []int{2} // the scalar forms of MinBetween/MaxBetween are not modelled
+		minmax := op == "min" || op == "max"
+		if minmax {
+			// the scalar forms of MinBetween/MaxBetween are not modelled: keep shapes with at least
+			// two elements and layouts that cannot collapse to a rank-0 view
+			if prod(sh) < 2 {
+				sh = []int{2, 2}[:r.rangeInt(1, 2)]
+			}
+			la = []string{"rm", "T", "mat", "cm", "cmb", "stepslice"}[r.intn(6)]
 			p = pb{}
 			preA, ia = source(r, la, sh, 1)
 			a = p.add(preA, ia)
@@ -97,13 +103,16 @@ func genEW(prop, tier string, r *rng, emit func(string)) {
 				bbase = 1
 			}
 		}
-		if op == "pow" {
+		powop := op == "pow"
+		if powop {
+			// keep a^b exactly representable: at most 6 elements, no enlarged parents
 			if prod(sh) > 6 {
 				sh = []int{2, 3}[:r.rangeInt(1, 2)]
-				p = pb{}
-				preA, ia = source(r, la, sh, 1)
-				a = p.add(preA, ia)
 			}
+			la = []string{"rm", "T", "mat", "cm", "cmb"}[r.intn(5)]
+			p = pb{}
+			preA, ia = source(r, la, sh, 1)
+			a = p.add(preA, ia)
 			bbase = 0
 			dt = "f64" // Pow accepts float/complex element types only
 		}
@@ -115,6 +124,15 @@ func genEW(prop, tier string, r *rng, emit func(string)) {
 				shb = randShape(r, 1, 3, 3)
 			}
 			lb := ewLayouts[r.intn(len(ewLayouts))]
+			if powop {
+				lb = []string{"rm", "T", "mat", "cm", "cmb"}[r.intn(5)]
+			}
+			if minmax {
+				lb = []string{"rm", "T", "mat", "cm", "cmb", "stepslice"}[r.intn(6)]
+				if prod(shb) < 2 {
+					shb = sh
+				}
+			}
 			preB, ib := source(r, lb, shb, bbase)
 			b = p.add(preB, ib)
 		}
